@@ -105,6 +105,13 @@ def judge(case):
                     out2, _ = fam.run_lib(case, ops, rg, copy=False) if fam is ct else fam.run_lib(case, ops, rg)
                     if np.asarray(out2.data).tobytes() != first.tobytes():
                         v("not-repeatable", f"[{mode}] repeating the operation on unchanged operands gave different bits")
+                    out3, _ = fam.run_lib(case, ops, rg, copy=False) if fam is ct else fam.run_lib(case, ops, rg)
+                    if out3.requires_grad:
+                        try: out3.backward(sg.Tensor(np.asarray(values.dense_g(out3.shape), dtype=out3.dtype if out3.dtype.kind == "f" else np.float64)))
+                        except Exception: pass
+                    for nm, o in (("first", out), ("second", out2)):
+                        if not np.array_equal(np.asarray(o.data), first, equal_nan=True):
+                            v("result-modified-by-later-call", f"[{mode}] the {nm} result changed while the same operation was applied again (results share storage)")
             finally:
                 cn.COPY = True
         finally:
